@@ -209,7 +209,7 @@ def run(tier: str, seed: int) -> dict:
                     if len(samples) < 8 and c > 0 and runs % 37 == 1:
                         samples.append(f"GP {label} pop={pop} minimize={minimize}: {c} generation transitions with a reserved elitism slot checked")
     rule = (
-        f"ElitismStep: all populations over {{0,1,2}}^n, n 1..{max_n}, optionally with one individual presented twice, both directions, k 1..|pop|, "
+        f"ElitismStep: all populations over {{0,1,2}}^n, n 1..{max_n}, optionally with one individual presented twice, and all populations over {{-inf,-1.5,0,2,+inf}}^n, n 1..3, that contain an infinite value, both directions, k 1..|pop|, "
         "as list and as Population (pre-evaluated or not): exactly k members (multiset), no excluded individual strictly better than an included one "
         "(raw table values compared in the declared direction).  GP: 7 step compositions with a top-level ParallelStep containing an ElitismStep x "
         "population_size 2..12, 20, 30 x both directions x 10 generations on a random table landscape; for every generation in which the ElitismStep "
